@@ -95,6 +95,19 @@ func main() {
 		}
 		data, _ = json.MarshalIndent(ptab, "", " ")
 		os.WriteFile(filepath.Join(toolRoot(), "params.json"), data, 0o644)
+	case "structural":
+		// the SSA-scan obligations only (debugging)
+		var obls []*Obl
+		obls = append(obls, m.structuralC10()...)
+		obls = append(obls, m.structuralC20()...)
+		obls = append(obls, m.structuralErrorsUsed("C11")...)
+		obls = append(obls, m.structuralRecursion("C20")...)
+		for _, o := range obls {
+			fmt.Printf("%-8s %s\n", o.Status, o.Name)
+			if o.Output != "" {
+				fmt.Println(o.Output)
+			}
+		}
 	case "funcs":
 		for _, n := range sortedKeys(m.funcs) {
 			fmt.Println(n)
